@@ -27,7 +27,7 @@ REQUIRED = [
     "calls.Perm.occurrences_in", "calls.Perm.contains", "calls.Perm.avoids", "calls.Perm.avoids_set",
     "calls.Perm.__contains__", "calls.Perm.count_occurrences_of", "calls.Patt.count_occurrences_in",
     "calls.Patt.contained_in", "calls.Patt.avoided_by", "calls.Perm.occurrences_of",
-    "listing.exhausted", "listing.abandoned", "memo.checked", "memo.reused", "coloured.checked", "derived.objects",
+    "listing.exhausted", "listing.abandoned", "memo.checked", "memo.reused", "coloured.checked", "derived.objects", "long.patterns", "multi.same_object_mutated",
 ]
 MIN_NONTRIVIAL = 200
 WATCHDOG = {"quick": 1800, "thorough": 4 * 3600}
@@ -297,6 +297,50 @@ def chk_multi(ctx, t, ps):
         Pp in T
 
 
+def chk_multi_mutated(ctx, t, ps, repl):
+    """history: the SAME collection object is handed over again after the caller replaced some of its members
+    (same length, same identity); every call is judged on the collection's content at the time of the call"""
+    T, PS = Perm(t), [Perm(q) for q in ps]
+    R = [Perm(q) for q in repl]
+    lst, st = list(PS), set(PS)
+    T.avoids_set(lst), T.avoids_set(st)
+    for i, new in enumerate(R):
+        if not lst:
+            break
+        j = (i * 7 + len(new)) % len(lst)
+        old = lst[j]
+        lst[j] = new
+        T.avoids_set(lst)
+        if old in st and new not in st:
+            st.discard(old)
+            st.add(new)
+            T.avoids_set(st)
+        T.avoids(*lst), T.contains(*lst)
+    CTX.count("multi.same_object_mutated")
+
+
+def chk_long(ctx, k, seed):
+    """patterns of several hundred points (beyond every recursion-free shortcut threshold one could pick): the pattern in
+    itself, and in itself with one extra point placed first, last, or anywhere (all occurrences end at / start at a boundary)"""
+    import random
+
+    rng = random.Random(seed)
+    p = rand_perm(rng, k)
+    P = Perm(p)
+    _pair(P, Perm(p), full=True)
+    for where in ("last", "first", "any"):
+        pos = {"last": k, "first": 0, "any": rng.randint(0, k)}[where]
+        val = rng.randint(0, k)
+        t = [v + (v >= val) for v in p]
+        t.insert(pos, val)
+        _pair(P, Perm(t), full=where == "last")
+        q = list(t)  # near miss: the text with two adjacent values exchanged somewhere
+        i = rng.randrange(k)
+        q[i], q[i + 1] = q[i + 1], q[i]
+        _pair(P, Perm(q), full=False)
+    CTX.count("long.patterns")
+
+
 def chk_multi_in(ctx, p, ts):
     P, TS = Perm(p), [Perm(t) for t in ts]
     P.contained_in(*TS)
@@ -386,7 +430,7 @@ def chk_derived(ctx, p, t, how):
 
 DERIVED_HOW = ["to_standard", "inverse_twice", "rotate4", "unrank", "remove_insert", "from_string", "compose_id"]
 
-CHECKS = {"derived": chk_derived, "pair": chk_pair, "multi": chk_multi, "multi_in": chk_multi_in, "colour": chk_colour, "history": chk_history}
+CHECKS = {"long": chk_long, "multi_mutated": chk_multi_mutated, "derived": chk_derived, "pair": chk_pair, "multi": chk_multi, "multi_in": chk_multi_in, "colour": chk_colour, "history": chk_history}
 
 
 # ---- workload ----------------------------------------------------------------------------
@@ -410,7 +454,7 @@ def plan(tier, seed):
         for part in range(parts):
             specs.append({"name": f"exh-k{k}-n{n}-{part}", "kind": "exh", "k": k, "n": n, "part": part, "parts": parts})
     for i in range(16):
-        specs.append({"name": f"rand-{i}", "kind": "rand", "pairs": nrand // 16, "hist": nhist // 16, "col": ncol // 16})
+        specs.append({"name": f"rand-{i}", "kind": "rand", "pairs": nrand // 16, "hist": nhist // 16, "col": ncol // 16, "long": 1 if tier == "quick" else 6})
     return specs
 
 
@@ -485,10 +529,15 @@ def run_rand(ctx, spec):
             rng.shuffle(ps)
             chk_multi(ctx, t, ps)
         if rng.random() < 0.1:
+            ps = [rand_perm(rng, rng.randint(1, 4)) for _ in range(rng.randint(1, 4))]
+            chk_multi_mutated(ctx, t, ps, [rand_perm(rng, rng.randint(1, 4)) for _ in range(rng.randint(1, 4))] + [p])
+        if rng.random() < 0.1:
             ts = [t] + [rand_perm(rng, rng.randint(0, 8)) for _ in range(rng.randint(0, 3))]
             chk_multi_in(ctx, p, ts)
         if rng.random() < 0.25:
             chk_derived(ctx, p, t, rng.choice(DERIVED_HOW))
+    for _ in range(spec.get("long", 0)):
+        chk_long(ctx, rng.randint(500, 640), rng.randrange(10 ** 9))
     for _ in range(spec["col"]):
         k, n = rng.randint(1, 4), rng.randint(1, 9)
         p, t = planted(rng, k, n)
